@@ -47,6 +47,8 @@ pub enum Init {
     CtlErr,
     /// peer's DISCONNECT: 0 no session expiry, 1 session expiry 0, 2 session expiry 60
     PeerDisconnect(u8),
+    /// peer's DISCONNECT whose protocol handler is parked until the end: later initiators act while it is being handled
+    PeerDisconnectHeld,
 }
 
 #[derive(Clone, Debug, PartialEq, Eq, Hash, Serialize, Deserialize)]
@@ -99,6 +101,7 @@ pub fn initiators(role: Role) -> Vec<Init> {
         Init::PeerDisconnect(0),
         Init::PeerDisconnect(1),
         Init::PeerDisconnect(2),
+        Init::PeerDisconnectHeld,
     ];
     if role.is_server() {
         v.extend([Init::QosAboveMax, Init::CtlDisconnect(false, 0x98), Init::CtlDisconnect(true, 0x00), Init::RetainUnavailable, Init::SubIdUnavailable, Init::CtlErr]);
@@ -150,6 +153,10 @@ async fn apply(c: &Case, eut: &Eut, i: Init, pid: &mut u16) {
             app.ctl_plans.borrow_mut().insert(seq, CtlPlan::Err);
             eut.peer_send(&P5::Subscribe(s5::Sub5 { pid: id, filters: vec![("e".into(), s5::SubOpts::default())], ..Default::default() }), &[]);
         }
+        Init::PeerDisconnectHeld => {
+            app.hold(G_CTL, app.ctl_seq.get());
+            eut.peer_send(&P5::Disconnect(s5::Disc5::default()), &[]);
+        }
         Init::PeerDisconnect(k) => {
             let se = match k {
                 0 => None,
@@ -197,7 +204,7 @@ pub async fn run_case(c: Case) -> Result<CaseInfo, Failure> {
     let mut peer_disc_sent: Option<Init> = None;
     for (k, i) in c.inits.iter().enumerate() {
         apply(&c, &eut, *i, &mut pid).await;
-        if matches!(i, Init::PeerDisconnect(_)) && peer_disc_sent.is_none() {
+        if matches!(i, Init::PeerDisconnect(_) | Init::PeerDisconnectHeld) && peer_disc_sent.is_none() {
             peer_disc_sent = Some(*i);
         }
         match c.seps.get(k).copied().unwrap_or(2) % 3 {
@@ -390,7 +397,7 @@ pub fn run(ctx: &Ctx, started: Instant) -> i32 {
         rule: format!(
             "enumerated core of {total} cases: every single initiator and every ordered pair (thorough: triple) with repetition of close initiators {{application close / close_with_reason / close_with_no_reason / force_close; protocol handler answering PINGREQ or SUBSCRIBE with \
              disconnect_with; peer violations with dedicated codes (unknown topic alias 0x94, QoS above maximum 0x9B, RETAIN unavailable 0x9A, subscription identifier unavailable 0xA1, Receive Maximum exceeded 0x93, frame above the maximum 0x95); malformed bytes; unsolicited PUBACK; \
-             publish handler error; protocol handler error; peer DISCONNECT without / with zero / with non-zero session expiry}} x separators {{none, yields, settle}} x control service answering Stop with nothing / its own DISCONNECT / an error, at once or held open while the later initiators act, v5 server and v5 client; random mixes of 2..5 initiators. \
+             publish handler error; protocol handler error; peer DISCONNECT without / with zero / with non-zero session expiry, or with its protocol handler parked while the later initiators act}} x separators {{none, yields, settle}} x control service answering Stop with nothing / its own DISCONNECT / an error, at once or held open while the later initiators act, v5 server and v5 client; random mixes of 2..5 initiators. \
              Oracle on the reference-decoded output: at most one DISCONNECT, nothing after it, none after the peer's DISCONNECT was handled (except 0x82 for a non-zero session expiry against CONNECT expiry 0), an error cause that comes first and is not overtaken never yields reason 0x00 and \
              carries its dedicated code, a lone error cause is reported at all. Non-trivial = at least 2 initiators or a dedicated-code cause; distinct = the case"
         ),
